@@ -273,7 +273,7 @@ def inv_norm(Mfloat):
 def knots_and_points(chk, drv):
     from pygyro.splines.splines import make_knots
     rng = chk.rng
-    for it in range(chk.n(60, 500)):
+    for it in range(chk.n(150, 1500)):
         sp = gen_space(rng)
         case = sp.desc()
         exact_family = sp.kind in ('uniform-dyadic', 'cu-dyadic', 'dyadic')
@@ -467,7 +467,7 @@ def interp_1d(chk, drv):
     if chk.quick():
         fixed = [f for k, f in enumerate(fixed) if k % 2 == chk.seed % 2 or (f[1] and f[3] == f[0])]
     todo = [gen_space(rng, p, per, kind, nc) for (p, per, kind, nc) in fixed]
-    todo += [gen_space(rng) for _ in range(chk.n(45, 600))]
+    todo += [gen_space(rng) for _ in range(chk.n(220, 3500))]
     for it, sp in enumerate(todo):
         dk = rng.choice(['normal', 'normal', 'scaled', 'big', 'small', 'ints'])
         u = gen_data(rng, sp.nb, dk)
@@ -499,7 +499,7 @@ def banded(chk, drv):
         return orig(bmat, l, u)
     try:
         si.dgbtrf = spy
-        for it in range(chk.n(8, 60)):
+        for it in range(chk.n(20, 200)):
             sp = gen_space(rng, per=False)
             del seen[:]
             si.SplineInterpolator1D(sp.basis)
@@ -522,7 +522,7 @@ def banded(chk, drv):
 def complex_1d(chk, drv):
     rng = chk.rng
     stats = {}
-    for it in range(chk.n(12, 150)):
+    for it in range(chk.n(40, 600)):
         sp = gen_space(rng, per=False)
         dk = rng.choice(['normal', 'scaled'])
         ur, ui = gen_data(rng, sp.nb, dk), gen_data(rng, sp.nb, dk)
@@ -598,7 +598,7 @@ def solve_exact(M, u):
 def polynomials(chk, drv):
     rng = chk.rng
     worst = 0.0
-    for it in range(chk.n(25, 300)):
+    for it in range(chk.n(80, 1000)):
         sp = gen_space(rng, per=False, maxcells=9)
         deg = rng.randint(0, sp.p)
         q = [F(rng.randint(-64, 64), 16) for _ in range(deg + 1)]
@@ -630,8 +630,9 @@ def polynomials(chk, drv):
                          float(peval(q, F(yv))), float(spl.eval(yv)))
                 break
         # exact test of the model (labelled test, not proof): exact solve of the model's matrix, exact evaluation
-        if it < chk.n(8, 60) and sp.kind in ('dyadic', 'uniform-dyadic', 'cu-dyadic', 'random', 'uniform', 'cu'):
-            ue = [peval(q, F(float(x))) for x in xs]
+        if it < chk.n(25, 250) and sp.kind in ('dyadic', 'uniform-dyadic', 'cu-dyadic', 'random', 'uniform', 'cu'):
+            # uniform-cubic kernels evaluate a point beyond xmin + ncells*dx (xmax rounded up) at xmin + ncells*dx (offset := 1)
+            ue = [peval(q, min(F(float(x)), sp.b) if sp.cu else F(float(x))) for x in xs]
             mo = drv.call({'op': 'interp1d', 'space': sp.req, 'xgrid': common.rats(xs), 'u': [str(v) for v in ue],
                            'sol': ['0'] * sp.nb})
             Mm = [common.unrats(r) for r in mo['matrix']]
@@ -664,7 +665,7 @@ def interp_2d(chk, drv):
     rng = chk.rng
     stats = {}
     combos = [(a, b) for a in (False, True) for b in (False, True)]
-    for it in range(chk.n(14, 160)):
+    for it in range(chk.n(48, 700)):
         per1, per2 = combos[it % 4]
         cu = rng.random() < 0.25          # Spline2D asserts basis1.cubic_uniform == basis2.cubic_uniform
         if cu:
